@@ -838,8 +838,21 @@ pub fn shard_main(cases: &[(&str, fn(&mut GridCtx))]) {
     let pool = rayon::ThreadPoolBuilder::new().num_threads(1).build().unwrap();
     pool.install(|| {
         arena::init_thread(0);
-        let ops = alphabet("shape");
-        let worlds = enumerate_states(&ops, depth);
+        let mut ops = alphabet("shape");
+        let mut worlds = enumerate_states(&ops, depth);
+        // a few worlds outside the small-scope catalogue: tables of 33 and 40 rows next to tables of one or two rows
+        // (row-count thresholds in the iteration and splitting code), reached by two extra operations
+        {
+            use mccore::s4::Op;
+            let big_ao = ops.len() as u8;
+            ops.push(Op::Extend { mask: 5, n: 40, style: 0 });
+            let big_a = ops.len() as u8;
+            ops.push(Op::Extend { mask: 1, n: 33, style: 0 });
+            // 0: insert {} ; 1: insert {A,O} reversed ; 2: insert {A,Z,O,B} reversed (the first three operations of "shape")
+            for h in [vec![big_ao], vec![big_ao, 1], vec![big_ao, 0, 2], vec![big_a, 1, 2], vec![1, 2, big_a], vec![big_ao, big_a, 2]] {
+                worlds.push(h);
+            }
+        }
         let mut ctx = GridCtx { ops, worlds, found: vec![], stats: GridStats::default(), only_world };
         if let Some(msg) = ENUM_FAILURE.with(|f| f.borrow_mut().take()) {
             // the catalogue is built with plain public operations; a panic there means queries cannot be judged
